@@ -12,7 +12,7 @@ pub fn def() -> CheckDef {
         id: "C11",
         title: "The store always holds a complete image of what the engine knows",
         case,
-        rule: "case = generated model (control flow, catches, generated acts, a quarter with steps/branches/acts written without an id, set/code acts that write variables declared by enclosing scopes, workflow env and scripts that set $env) x scripted client using all action kinds incl. errors x store backend (in-memory, SQLite) x seeded schedule; at every quiescent point the live process (hook H1, cache only) is compared with the process row and the task rows: same task set, per task state / prev / data / err / start and end time, per process state / err / env. non-trivial = the run reached >= 3 quiescent points with a cached, unfinished process and a variable, env or error was written; distinct = distinct (scenario hash, schedule hash)",
+        rule: "case = generated model (control flow, catches, generated acts, a quarter with steps/branches/acts written without an id, set/code acts that write variables declared by enclosing scopes, workflow env and scripts that set $env) x scripted client using all action kinds incl. errors and cancel (an eighth playing the multi-step cancel history, another eighth failing every interrupt first so that catches revive tasks that then wait in their catch steps; a quarter with lifecycle hooks; a quarter with timeout rules, clock jumps and ticks while interrupts are open) x store backend (in-memory, SQLite) x seeded schedule; at every quiescent point the live process (hook H1, cache only) is compared with the process row and the task rows: same task set, per task state / prev / data / err / start and end time, per process state / err / env. non-trivial = the run reached >= 3 quiescent points with a cached, unfinished process and a variable, env or error was written; distinct = distinct (scenario hash, schedule hash)",
         level: "exploration",
         assumptions: &["monotone simulated clock", "the live side is read through hook H1 without loading from the store", "no storage errors are injected"],
         probes: &["probe.env_written_by_script", "probe.ancestor_variable_written", "probe.error_raised", "probe.catch_revive", "probe.else_branch_skipped", "probe.sqlite", "probe.generated_acts", "probe.timeout_rule_fired"],
